@@ -124,6 +124,23 @@ fn sample_ops(ops: &mut Vec<Op>) {
         .slow(|_, _, _| Some(1))
         .note("all 2^27 x 4 values of the two gen_range calls"),
     );
+    ops.push(
+        Op::new(
+            "P32E2::sample_steered_range_ends",
+            &["C19"],
+            &[Kind::Small(512), Kind::Small(4)],
+            OutKind::Raw,
+            |i, y, _| {
+                // the 256 smallest and the 256 largest values of the first gen_range, all 4 of the second
+                let x = if i < 256 { i } else { (1u64 << 27) - 512 + i };
+                let mut rng = Steered::new(&[word(x, 27, 32), word(y, 2, 33)], x ^ (y << 40));
+                let p: softposit::P32E2 = rng.gen();
+                in_unit_interval(crate::val::P32, p.to_bits() as u64) as u64
+            },
+        )
+        .slow(|_, _, _| Some(1))
+        .note("both ends of the first range x all values of the second (exhaustive in both tiers)"),
+    );
     // the raw sample for a given pair of generator words (used by replays / C16)
     ops.push(Op::new(
         "P16E1::sample_from_words",
